@@ -42,7 +42,9 @@ Record skeleton := mkSk {
   sk_response_send_nonblocking : bool; (* the send on the call's response channel has a default arm *)
   sk_notify_key_unique : bool;         (* every notification is filed under its own task key *)
   (* transport.go *)
-  sk_stop_err_in_once : bool           (* stopErr is assigned inside the close once, before close(stopCh), and nowhere else *)
+  sk_stop_err_in_once : bool;          (* stopErr is assigned inside the close once, before close(stopCh), and nowhere else *)
+  (* receiver.go *)
+  sk_cancel_negative_ignored : bool    (* receiveCancel drops a cancellation frame whose seqno is negative *)
 }.
 
 Definition selects_of (fn : string) : list (list arm) :=
@@ -119,7 +121,9 @@ Definition skeleton_now : skeleton :=
     (match close_once_sequence with
      | s1 :: s2 :: _ => String.eqb s1 "stopErr=err" && String.eqb s2 "close:t.stopCh"
      | _ => false
-     end && negb loop_assigns_stop_err).
+     end && negb loop_assigns_stop_err)
+    (existsb (String.eqb "rpc.SeqNo() < 0")
+       (match lookup "receiveHandler.receiveCancel" cond_census with Some l => l | None => [] end)).
 
 (* the mechanism the theorems were proved for (the unchanged tree, with the repairs recorded in known_findings.json) *)
 Definition expected_skeleton : skeleton :=
@@ -129,4 +133,5 @@ Definition expected_skeleton : skeleton :=
        true true
        true true true true
        true true true true
-       true true.
+       true true
+       true.
